@@ -55,7 +55,7 @@ func (p *Peer) bring(dir, state string, remoteHold uint16, rid uint32) *Conn {
 	if p.waitEv(from, stepWait, "log.t", dir, "*", "openSent") < 0 || state == "openSent" {
 		return c
 	}
-	c.send(wire.Open(remoteAS, remoteHold, rid, wire.Cap{Code: 77, Val: []byte(c.id)}))
+	c.send(wire.Open(remoteAS, remoteHold, rid, append([]wire.Cap{{Code: 77, Val: []byte(c.id)}}, p.env.extraCaps...)...))
 	if len(c.waitMsgs(2, stepWait)) < 2 {
 		return c
 	}
@@ -343,17 +343,46 @@ func scenHandshake(e *Env, args []string, r *rand.Rand) {
 		las = remoteAS
 	}
 	hold := uint16(atoi(m["hold"], 90))
-	p := e.addPeer(1, PeerOpts{LocalAS: las, RemoteAS: remoteAS, Hold: hold, Passive: dir == "in", IdleHold: 5 * time.Second})
+	ihold := 5 * time.Second
+	if m["prelude"] != "" {
+		ihold = 200 * time.Millisecond
+	}
+	p := e.addPeer(1, PeerOpts{LocalAS: las, RemoteAS: remoteAS, Hold: hold, Passive: dir == "in", IdleHold: ihold})
 	p.plugin.Caps = []bgp.Capability{{Code: 1, Value: []byte{0, 2, 0, 1}}}
 	if veto {
 		p.plugin.OpenVeto = &bgp.Notification{Code: 2, Subcode: 7, Data: []byte{9, 9}}
 	}
 	e.serve()
+	if m["prelude"] == "insess" && dir == "out" {
+		// history: the first outbound attempt is dropped by the remote, then an INBOUND session of the same peer comes
+		// up and is ended by the remote with a Cease; the OPEN under test arrives on the outbound connection that follows
+		if c0 := p.remote.accept(stepWait); c0 != nil {
+			c0.waitMsgs(1, stepWait)
+			c0.drainClose()
+		}
+		mk := e.tr.len()
+		if ci := p.bring("in", "established", 90, remoteID); ci != nil {
+			time.Sleep(20 * time.Millisecond)
+			mk = e.tr.len() // (the outbound FSM is re-enabled and dials at once when the inbound session ends)
+			ci.send(wire.Notification(6, 4, nil))
+			ci.waitEnd(stepWait)
+			p.waitEv(0, stepWait, "cb.exit", "OnClose")
+		}
+		p.mark = mk
+	}
 	c := p.bring(dir, "openSent", 90, remoteID)
 	if c != nil {
 		var body []byte
 		if !strings.HasPrefix(variant, "valid-burst") {
 			body = openVariant(variant, 0)
+		}
+		if m["prelude"] != "" {
+			// several connections in this trace: the OPEN carries the connection tag
+			if variant == "badas" {
+				body = wire.Open(remoteAS+7, 90, remoteID, tag(c))[19:]
+			} else {
+				body = wire.Open(remoteAS, 90, remoteID, wire.Cap{Code: 1, Val: []byte{0, 1, 0, 1}}, tag(c))[19:]
+			}
 		}
 		if sameAS && variant == "valid" { // identifier collision inside the same AS
 			id := e.localID.As4()
@@ -430,6 +459,7 @@ func scenUpdates(e *Env, args []string, r *rand.Rand) {
 	if ve := atoi(m["echo"], 0); ve > 0 {
 		p.plugin.VetoEcho = ve
 	}
+	p.plugin.HandlerAppend = atoi(m["append"], 0)
 	// end=fin | badhdr: the remote half-closes (or sends a faulty header) directly behind the last UPDATE: every
 	// UPDATE it sent before that must still be delivered
 	end := m["end"]
@@ -657,6 +687,10 @@ func init() {
 				if dir == "in" && st == "established" {
 					out = append(out, "writers:in:k=3:n=300:end=fsmerr:inside=0:pause=1:adv=1:ms=120:i=0", "writers:in:k=3:n=300:end=fsmerr:inside=0:pause=1:adv=1:ms=140:i=1")
 				}
+				// the remote announced the Extended Message capability: the length bound is still 4096
+				if st != "openSent" {
+					out = append(out, fmt.Sprintf("state-msg:%s:%s:badlen-long:cap6=1", dir, st), fmt.Sprintf("state-msg:%s:%s:badtype:cap6=1", dir, st))
+				}
 				// a well-formed message cut in two with a real pause (> 1 s) between the parts
 				out = append(out, fmt.Sprintf("state-msg:%s:%s:%s:gap=1300", dir, st, map[string]string{"openSent": "open", "openConfirm": "ka", "established": "update"}[st]))
 			}
@@ -686,6 +720,8 @@ func init() {
 			out = append(out, fmt.Sprintf("handshake:%s:valid:veto", dir), fmt.Sprintf("handshake:%s:valid:sameas", dir),
 				fmt.Sprintf("handshake:%s:valid-hold3:hold=3", dir), fmt.Sprintf("handshake:%s:valid:hold=0", dir))
 		}
+		// the OPEN arrives on an outbound connection after an inbound session of the same peer has come and gone
+		out = append(out, "handshake:out:valid:prelude=insess", "handshake:out:badas:prelude=insess")
 		return out
 	}
 	scenarioLists["C03"] = func(tier string, r *rand.Rand) []string {
@@ -721,6 +757,8 @@ func init() {
 		out = append(out, "updates:out:n=12:hold=0:k=h0", "updates:in:n=12:hold=0:end=fin:k=h1", "updates:out:n=5:slow=300000:hold=3:k=h2")
 		// the handler ends the second session of a peer (of a reused outbound FSM)
 		out = append(out, "updates:out:n=12:veto=3:second=1:k=s0", "updates:in:n=12:veto=2:second=1:k=s1", "updates:out:n=9:end=fin:slow=200:second=1:k=s2")
+		// the handler appends to the slice it was given while the next messages have already been read
+		out = append(out, "updates:in:n=25:slow=2000:append=64:end=fin:k=a0", "updates:out:n=25:slow=2000:append=8:end=fin:k=a1")
 		// the hold timer fires while OnEstablished is still busy and UPDATEs are parked in the reader
 		for i := 0; i < 8; i++ {
 			out = append(out, fmt.Sprintf("updates:%s:n=%d:hold=3:est=3200:k=e%d", []string{"out", "in"}[i%2], 4+i, i))
